@@ -1452,6 +1452,63 @@ fn ob_c17_partition_pop_expression_bytes(buf: [u8; 4], len: usize, n: usize) {
     assert!(r.as_ptr() as usize == s.as_ptr() as usize + m, "C17 the bytes are removed from the front");
 }
 
+// The `expression:` field of the postfix `Tokenized` that `partition` builds, hoisted as an EXPRESSION
+// (tools/vextract.py `hoist-expr`): its free variables are the locals of `partition`, bound here as
+// parameters. `n` (the number of popped tokens) and `unrooted` are in scope in the real body too, so
+// an edit that reads the wrong one of them compiles here exactly as it does there.
+#[allow(unused_variables, unused_mut)]
+fn partition_postfix_expression<'t>(expression: Cow<'t, str>, n: usize, unrooted: usize, offset: usize) -> Cow<'t, str> {
+//@hoist-expr src/token/mod.rs | partition | expression: match expression | expression:
+}
+
+//@ob C17.partition.expression.borrowed
+//@ props: C17 C19
+//@ kind: bounded(expressions of at most 4 bytes, every valid UTF-8 content; any offset, token count and un-rooting)
+//@ unwind: 6
+//@ fns: src/token/mod.rs::Tokenized::partition
+//@ pre: a BORROWED expression of at most 4 bytes; an offset on a character boundary or beyond the end; any number of popped tokens and any un-rooting amount (both unrelated to the offset)
+//@ post: the REAL `expression:` arm of partition (hoisted as an expression on every run) yields the expression without its first min(offset, len) bytes -- the amount the spans of the postfix tokens were shifted by, not the token count -- still borrowed from the same buffer
+fn ob_c17_partition_expression_borrowed(buf: [u8; 4], len: usize, n: usize, unrooted: usize, offset: usize) {
+    vassume!(len <= 4);
+    let s = match core::str::from_utf8(&buf[..len]) {
+        Ok(s) => s,
+        Err(_) => return,
+    };
+    vassume!(offset >= len || s.is_char_boundary(offset));
+    vcover!(len == 4 && offset == 3 && n == 1);
+    let r = partition_postfix_expression(Cow::Borrowed(s), n, unrooted, offset);
+    let m = if offset < len { offset } else { len };
+    assert!(r.len() == len - m, "C17 the postfix expression lacks exactly min(offset, len) bytes");
+    assert!(r.as_ptr() as usize == s.as_ptr() as usize + m, "C17 the bytes are removed from the front of the borrowed expression");
+    assert!(matches!(r, Cow::Borrowed(_)), "C19 the postfix of a borrowed expression borrows");
+}
+
+//@ob C17.partition.expression.owned
+//@ props: C17 C19
+//@ kind: bounded(the 4-byte expression `a/bc`; any offset, token count and un-rooting)
+//@ unwind: 6
+//@ fns: src/token/mod.rs::Tokenized::partition
+//@ pre: an OWNED expression (str::parse::<Glob>, Glob::into_owned) -- the constant `a/bc`, since a heap string of symbolic length and content gives no verdict in 420 s --; any offset, any number of popped tokens and any un-rooting amount
+//@ post: the REAL `expression:` arm of partition yields, byte for byte, what the borrowed arm yields: the expression without its first min(offset, len) bytes
+fn ob_c17_partition_expression_owned(n: usize, unrooted: usize, offset: usize) {
+    let s = "a/bc";
+    let len = 4usize;
+    vcover!(offset == 3 && n == 1);
+    vcover!(offset == 9 && n == 2);
+    let r = partition_postfix_expression(Cow::Owned(String::from(s)), n, unrooted, offset);
+    let m = if offset < len { offset } else { len };
+    assert!(r.len() == len - m, "C17 the postfix of an owned expression lacks exactly min(offset, len) bytes");
+    let (rb, sb) = (r.as_bytes(), s.as_bytes());
+    let mut i = 0;
+    while i < 4 {
+        if i < rb.len() && m + i < len {
+            assert!(rb[i] == sb[m + i], "C19 the postfix of an owned expression has the bytes of the borrowed one");
+        }
+        i += 1;
+    }
+    core::mem::forget(r);
+}
+
 //@ob C10.token.canary
 //@ props: C10
 //@ kind: canary
